@@ -137,6 +137,42 @@ func (s *Sess) apiPutReusedBuffer(b, k string, body, next []byte) {
 	s.Head(b, k, "")
 }
 
+// apiPutReusedMap: the metadata map handed to Backend.PutObject is the caller's. A caller that fills one map
+// and uses it for two uploads, or changes it afterwards, has sent each upload what the map held at that
+// call: the stored objects do not follow the map around, and what an upload inherited from the object it
+// replaced is not passed on to the next key through the caller's map.
+func (s *Sess) apiPutReusedMap(b string) {
+	if s.st.Ext != nil || s.st.Backend == nil {
+		return
+	}
+	s.Put(b, "alias/old", []byte("predecessor"), []KV{{"X-Amz-Meta-Old", "o"}})
+	m := map[string]string{"X-Amz-Meta-A": "1"}
+	put := func(k string, body []byte, sent []KV) {
+		_, err := s.st.Backend.PutObject(b, k, m, bytes.NewReader(body), int64(len(body)))
+		r := Resp{Status: 200, Header: http.Header{}}
+		if err != nil {
+			r.Status = 500
+		} else if o, e := s.st.Backend.HeadObject(b, k); e == nil {
+			r.Header.Set("ETag", `"`+hex.EncodeToString(o.Hash)+`"`)
+			o.Contents.Close()
+		}
+		s.emitOp("put", []string{hs(b), hs(k), hx(body), metaArg(sent)}, obsT{r: r})
+	}
+	put("alias/old", []byte("replaces the predecessor"), []KV{{"X-Amz-Meta-A", "1"}}) // inherits Old from what it replaces
+	for k := range m {
+		if k != "X-Amz-Meta-A" {
+			delete(m, k) // (whatever the backend left in the caller's map is not what the caller sends next)
+		}
+	}
+	put("alias/new", []byte("a new key, same map"), []KV{{"X-Amz-Meta-A", "1"}})
+	m["X-Amz-Meta-A"] = "changed afterwards"
+	m["X-Amz-Meta-B"] = "added afterwards"
+	for _, k := range []string{"alias/old", "alias/new"} {
+		s.Get(b, k, "")
+		s.Head(b, k, "")
+	}
+}
+
 // heldRead: an object is what it was when it was opened. A reader that holds the result of GetObject
 // (size, hash, metadata and a body stream; the HTTP handler streams the same way after the backend
 // call has returned) while the key is overwritten reads the bytes its size and hash describe.
@@ -353,6 +389,7 @@ func runC01(tier string, seed uint64) {
 				s.Head(b, sk, "")
 				round(sk, sb, nil, 0)
 			}
+			s.apiPutReusedMap(b)
 			s.recycledBucketPut(rng.Bytes(3000))
 			// uploads through the Go API from a buffer that is reused afterwards
 			s.apiPutReusedBuffer(b, "pooled/1", []byte("first use of the pooled buffer"), []byte("SECOND USE OF THE POOLED BUFFER!!"))
